@@ -95,7 +95,9 @@ type Obligation struct {
 
 type modset struct {
 	minSeq int
-	heaps map[string]bool
+	startID int                    // terms with smaller ids existed before the loop was analysed
+	addrs  map[string][]*smt.Term  // loop-invariant addresses written, per heap
+	heaps map[string]bool          // heaps written at some loop-variant (or unknown) address
 	cells map[*ssa.Alloc]bool
 	ghost map[string]bool
 	all   bool
@@ -103,11 +105,14 @@ type modset struct {
 }
 
 func newModset() *modset {
-	return &modset{heaps: map[string]bool{}, cells: map[*ssa.Alloc]bool{}, ghost: map[string]bool{}}
+	return &modset{addrs: map[string][]*smt.Term{}, heaps: map[string]bool{}, cells: map[*ssa.Alloc]bool{}, ghost: map[string]bool{}}
 }
 
 func (m *modset) size() int {
 	n := len(m.heaps) + len(m.cells) + len(m.ghost)
+	for _, a := range m.addrs {
+		n += len(a)
+	}
 	if m.all {
 		n += 1000000
 	}
@@ -144,6 +149,7 @@ type hctx struct {
 	mayPanic []*smt.Term
 	pendingGhost []pendingGhostCheck
 	retPaths []*smt.Term
+	calleeKeep []frameLoc
 	callPos  token.Pos
 	callerFn string
 }
@@ -202,6 +208,7 @@ type Exec struct {
 	vacuityOn bool
 	objSeq map[int]int
 	specObj map[int]bool
+	keepOnHavoc []frameLoc
 	lastRetPaths []*smt.Term
 	ghostNames map[string]bool
 	pendingGhost []pendingGhostCheck
@@ -285,7 +292,19 @@ func (e *Exec) newEpoch() int { e.epochCtr++; return e.epochCtr }
 
 func (e *Exec) setHeap(st *State, key string, t *smt.Term, addr *smt.Term) {
 	if e.disc != nil && !e.loopFresh(addr) {
-		e.disc.heaps[key] = true
+		if addr != nil && addr.ID < e.disc.startID && e.disc.startID > 0 {
+			found := false
+			for _, x := range e.disc.addrs[key] {
+				if x == addr {
+					found = true
+				}
+			}
+			if !found {
+				e.disc.addrs[key] = append(e.disc.addrs[key], addr)
+			}
+		} else {
+			e.disc.heaps[key] = true
+		}
 	}
 	e.heapSort[key] = t.S
 	st.Heaps[key] = t
